@@ -12,7 +12,7 @@ import (
 func init() { registry["C03"] = checkC03 }
 
 func checkC03(c *Ctx, r *Report) {
-	r.Explain = "Decides structural necessary conditions of 'effective access = admin grants ∪ grants of current documents': (R1) a committed write invalidates exactly the principals whose grants changed — the success return of the write path is dominated by MarkPrincipalsChanged, whose arguments derive from the changed-principal lists computed by applying the sync function's access and role grants to the document; (R2) only the write path and resync apply grants to a document, and on the write path grants are applied after the sync function has been (re-)evaluated for the revision that ends up current — no evaluation is reachable after grants were applied; (R3) invalidation reaches the authenticator for every changed principal (channels for each name in the first list, roles for each name in the second), and an invalidation marker, once set, is persisted rather than cancelled; (R4) a principal whose computed channels or roles are missing/invalidated is recomputed when loaded, the recomputation's failures propagate (a principal is never returned with stale or empty sets), and the recomputed sets include the explicit (admin) grants and the public channel; (R5) the sync function's channel, access-grant and role-grant outputs keep their identity on the way to the document (traced positionally through the wrappers — the two grant maps have the same type, so a swap compiles); (R6) the sub-document fast path of channel invalidation selects the per-collection slot exactly as IsDefaultCollection does, for all valuations; (R7) a purge, which writes no revision, invalidates the grantees of the purged document itself. Not decided: that the recomputation query returns the right grants, order independence, role inheritance arithmetic."
+	r.Explain = "Decides structural necessary conditions of 'effective access = admin grants ∪ grants of current documents': (R1) a committed write invalidates exactly the principals whose grants changed — the success return of the write path is dominated by MarkPrincipalsChanged, whose arguments derive from the changed-principal lists computed by applying the sync function's access and role grants to the document; (R2) only the write path and resync apply grants to a document, and on the write path grants are applied after the sync function has been (re-)evaluated for the revision that ends up current — no evaluation is reachable after grants were applied; (R3) invalidation reaches the authenticator for every changed principal (channels for each name in the first list, roles for each name in the second), and an invalidation marker, once set, is persisted rather than cancelled; (R4) a principal whose computed channels or roles are missing/invalidated is recomputed when loaded, the recomputation's failures propagate (a principal is never returned with stale or empty sets), and the recomputed sets include the explicit (admin) grants and the public channel; (R5) the sync function's channel, access-grant and role-grant outputs keep their identity on the way to the document (traced positionally through the wrappers — the two grant maps have the same type, so a swap compiles); (R6) the sub-document fast path of channel invalidation selects the per-collection slot exactly as IsDefaultCollection does, for all valuations; (R7) a purge, which writes no revision, invalidates the grantees of the purged document itself.; (R8) a failed invalidation after a committed change is returned to the caller or retried, never only logged. Not decided: that the recomputation query returns the right grants, invalidations racing a rebuild in progress (F31) and principals created while a granting document is written (F32), order independence, role inheritance arithmetic."
 	c03R1(c, r)
 	c03R2(c, r)
 	c03R3(c, r)
@@ -20,6 +20,7 @@ func checkC03(c *Ctx, r *Report) {
 	c03R5(c, r)
 	c03R6(c, r)
 	c03R7(c, r)
+	c03R8(c, r)
 }
 
 func c03R1(c *Ctx, r *Report) {
